@@ -773,6 +773,13 @@ void eval_instruction (const char *p) {
       if (neolith_verif_dispatch_hook)
         neolith_verif_dispatch_hook (instruction);
 #endif
+      /* several instructions push a value without a bounds check of their own (locals, globals, string and
+       * aggregate constants): the slots kept free behind end_of_stack cover one instruction, so look here */
+      if (sp >= end_of_stack)
+        {
+          set_error_state (ES_STACK_FULL);
+          error ("***Stack overflow!");
+        }
       if (!--eval_cost)
         {
           /* [NEOLITH-EXTENSION] allows eval_instruction without current_object */
@@ -792,6 +799,7 @@ void eval_instruction (const char *p) {
         {
         case F_PUSH:		/* Push a number of things onto the stack */
           n = EXTRACT_UCHAR (pc++);
+          STACK_CHECK (n);
           while (n--)
             {
               i = EXTRACT_UCHAR (pc++);
